@@ -195,16 +195,6 @@ example : (fromEdges [] [(1, 0), (0, 2)] [(0, 2)] : MG Nat).sigmaSeparated 1 2 [
 example : (fromEdges [] [(1, 0), (2, 0), (0, 3), (3, 4)] [] : MG Nat).sigmaSeparated 1 2 [4] = .ok false := by decide
 example : (fromEdges [] [(1, 0), (2, 0), (0, 3), (3, 4)] [] : MG Nat).sigmaSeparated 1 2 [] = .ok true := by decide
 
-/-- a graph whose directed edges all increase some rank is acyclic (used to exhibit graphs satisfying `Acyclic`) -/
-theorem acyclic_of_rank (G : MG α) (r : α → Nat) (h : ∀ u v, G.DiEdge u v → r u < r v) : G.Acyclic := by
-  have key : ∀ u v, TransGen G.DiEdge u v → r u < r v := by
-    intro u v huv
-    induction huv with
-    | single h' => exact h _ _ h'
-    | tail _ h' ih => exact Nat.lt_trans ih (h _ _ h')
-  intro v hv
-  exact Nat.lt_irrefl _ (key v v hv)
-
 /-- the hypotheses of the agreement theorems are satisfiable: the F9a witness is a well-formed acyclic graph -/
 example : (fromEdges [] [(1, 0), (0, 2)] [(0, 2)] : MG Nat).Acyclic := by
   apply acyclic_of_rank _ (fun v => if v = 1 then 0 else if v = 0 then 1 else 2)
